@@ -191,10 +191,19 @@ impl Compiler {
 
     /// Compiles the given AST into executable Bytecode
     pub fn compile_ast(&mut self, ast: &BlockStmt) -> Result<Bytecode, Error> {
+        // If anything goes wrong, we forget everything about this program: a retained
+        // compiler (as used by the REPL) should be able to continue as if nothing happened
+        let num_globals = self.symbols.num_globals();
+
         // Call compile_statement on each child node directly
         // We don't re-use compile_block_statement here because it exits the global scope
         for s in ast {
-            self.compile_statement(s)?;
+            if let Err(e) = self.compile_statement(s) {
+                self.instructions.clear();
+                self.loop_contexts.clear();
+                self.symbols.rollback(num_globals);
+                return Err(e);
+            }
         }
         self.emit_opcode(OpCode::Halt);
         self.instructions.shrink_to_fit();
